@@ -37,6 +37,13 @@ func signatureBinding(k *dns.DNSKEY, sig *dns.RRSIG, rrset []dns.RR) error {
 	if !equalNameASCIIFold(sig.SignerName, k.Hdr.Name) {
 		return ErrMissingDNSKEY
 	}
+	// And it is a fully qualified name, as every name off the wire is. The
+	// library qualifies the signer before it compares, so a key owned by
+	// the relative "example" is refused there; here "example" equalled
+	// "example".
+	if !dns.IsFqdn(k.Hdr.Name) {
+		return ErrMissingDNSKEY
+	}
 
 	signer := dns.CanonicalName(sig.SignerName)
 	h0 := rrset[0].Header()
